@@ -81,7 +81,9 @@ func zeroResult(fn *ssa.Function) value {
 
 func (st *pstate) intercept(fr *frame, name string, fn *ssa.Function, args []value) (value, bool) {
 	if !st.w.warmDone && skipInWarmup(name, fn) {
-		return zeroResult(fn), true
+		if _, host := intrinsics[name]; !host && !(fn.Pkg != nil && strings.HasPrefix(fn.Pkg.Pkg.Path(), "gonum.org/") && fr.i.initAllow[fn.Pkg.Pkg.Path()]) {
+			return zeroResult(fn), true
+		}
 	}
 	if to, ok := st.ex.Cfg.Redirects[name]; ok {
 		if isHarnessFn(fr.callerFn()) && strings.HasSuffix(fr.callerFn().Name(), "_native") {
@@ -97,8 +99,11 @@ func (st *pstate) intercept(fr *frame, name string, fn *ssa.Function, args []val
 		return in(st, fr, fn, args), true
 	}
 	if ext, ok := externals[name]; ok {
-		if fn.Blocks == nil && fn.Pkg != nil && anySymArg(args) {
-			fn.Pkg.Build() // on-demand SSA construction
+		if fn.Pkg != nil && anySymArg(args) {
+			if _, done := builtPkgs.Load(fn.Pkg); !done {
+				fn.Pkg.Build() // on-demand SSA construction (awaited, see callSSA)
+				builtPkgs.Store(fn.Pkg, true)
+			}
 		}
 		if anySymArg(args) && fn.Blocks != nil {
 			return nil, false // interpret the real body symbolically
@@ -389,13 +394,27 @@ func init() {
 	intrinsics["github.com/oklog/ulid/v2.Make"] = func(st *pstate, fr *frame, fn *ssa.Function, args []value) value {
 		st.useStub("ulid.Make = fresh distinct id")
 		st.ulid++
+		n := st.ulid
+		if st.ulidDesc {
+			n = 60000 - st.ulid
+		}
 		a := make(array, 16)
 		for i := range a {
 			a[i] = byte(0)
 		}
-		a[15] = byte(st.ulid)
-		a[14] = byte(st.ulid >> 8)
+		a[15] = byte(n)
+		a[14] = byte(n >> 8)
 		return a
+	}
+	// UlidOrder(1): the ids handed out by ulid.Make descend instead of ascend (a random ULID has no order
+	// relation to the previous one: code whose output depends on their order is unstable)
+	intrinsics[zz+"UlidOrder"] = func(st *pstate, fr *frame, fn *ssa.Function, args []value) value {
+		// a schedule decision (not part of the input): both orders belong to the same model
+		if st.ex.Cfg.Concrete {
+			return nil
+		}
+		st.ulidDesc = st.choose(2, DSchedule, fr, false) == 1
+		return nil
 	}
 	intrinsics["(github.com/oklog/ulid/v2.ULID).String"] = func(st *pstate, fr *frame, fn *ssa.Function, args []value) value {
 		a := args[0].(array)
